@@ -3,10 +3,10 @@ from common import *
 
 # stable keys of the defects the refuted-theorems describe: (family|class) -> theorem
 THEOREM_OF = {
-    "inventory-pervasive-unboxed": "C07_inventory_pervasive_refuted",
+    "inventory-pervasive-unboxed": "C07_inventory_pervasive_boxes",
     "rows-depth-below-rank": "C07_below_rank_refuted",
     "empty-axis-error": "C07_first_depth_empty_refuted",
-    "malformed-result": "C07_box_depth_empty_rows_refuted",
+    "malformed-result": "C07_box_kernel_wf",
 }
 
 
@@ -22,6 +22,7 @@ def run(r):
         "kernel_eq theorems: every mapped axis is non-empty for exact equality; over an empty mapped axis only the leading lengths are claimed (the property's carve-out)",
         "composition / reduce-under-rows theorems: the nesting depth does not exceed the rank (below it the faithful kernels are refuted, see the *_refuted theorems)",
         "routing specs: the operands' frame behaviour (Frame.sig_sound) is a premise",
+        "spine-level theorems about the iterating modifiers (iter_operand_ext, iter_exec_zero, iter_exec_runs) are about Model/Exec.v's iter_exec, where the array side (how many runs, which arguments, how results are assembled) is an oracle; the array side is what Kernels.v and the tie cover",
     ]
     if not r.harness(["c07"]):
         return
